@@ -126,6 +126,9 @@ fn cache_menu() -> Vec<ResourceRecord> {
         rr(&dn("www.a.ex."), txt(b"cached"), 300),
         rr(&dn("ads.example."), a([6, 6, 6, 6]), 300),
         rr(&dn("www.sub.a.ex."), a([6, 6, 6, 7]), 300),
+        // aliases from outside any local zone into names the authoritative zone owns
+        rr(&dn("ext.k."), cname(&dn("www.a.ex.")), 300),
+        rr(&dn("ext2.k."), cname(&dn("nope.a.ex.")), 300),
     ]
 }
 
@@ -133,7 +136,7 @@ fn question_names() -> Vec<DomainName> {
     [
         "www.a.ex.", "alias.a.ex.", "alias2.a.ex.", "alias3.a.ex.", "alias4.a.ex.", "nope.a.ex.", "ent.a.ex.",
         "q.wild.a.ex.", "below.deleg.a.ex.", "deleg.a.ex.", "a.ex.", "www.sub.a.ex.", "nope.sub.a.ex.",
-        "host.override.", "ads.example.", "other.override.", "x.wildna.", "up.ex.", "nope.ex.",
+        "host.override.", "ads.example.", "other.override.", "x.wildna.", "up.ex.", "nope.ex.", "ext.k.", "ext2.k.",
     ]
     .iter()
     .map(|s| dn(s))
@@ -520,7 +523,7 @@ pub fn run(ctx: &Ctx) -> i32 {
     report.traces_validated = report.evaluations;
     report.distinct_nontrivial = c("nontrivial");
     procpar::into_report(acc, crashes, &mut report);
-    report.rule = "8 configurations (authoritative zone a.ex. with records, aliases into four kinds of target, a delegation, a wildcard, an empty non-terminal, apex NS; optionally the nested zone sub.a.ex., the less specific authoritative zone ex. holding data for names of a.ex., and non-authoritative root-zone overrides / hosts / blocklist / wildcard entries incl. data for names of a.ex.) x every subset of <= k of 10 conflicting cache entries x 19 question names x 6 types x 3 modes x candidate orders, against an upstream world with yet other data for the same names; non-trivial = executions with a non-empty (conflicting) cache".into();
+    report.rule = "8 configurations (authoritative zone a.ex. with records, aliases into four kinds of target, a delegation, a wildcard, an empty non-terminal, apex NS; optionally the nested zone sub.a.ex., the less specific authoritative zone ex. holding data for names of a.ex., and non-authoritative root-zone overrides / hosts / blocklist / wildcard entries incl. data for names of a.ex.) x every subset of <= k of 12 cache entries (conflicting records, and aliases from outside into names the authoritative zone owns) x 21 question names x 6 types x 3 modes x candidate orders, against an upstream world with yet other data for the same names; non-trivial = executions with a non-empty (conflicting) cache".into();
     report.bounds = json!({"configs": N_CONFIGS, "cache_subset_max": ctx.tier.pick(2, 3), "question_names": question_names().len(), "qtypes": 6, "modes": 3});
     report.assumptions = vec![
         "D3: when an alias held by an authoritative zone leads out of authoritative data only the first record and clause (d) are judged".into(),
